@@ -64,6 +64,7 @@ def check(ctx) -> None:
     r67(ctx, cg)
     r68(ctx)
     r69(ctx)
+    r610(ctx)
     ctx.extra_coverage['call_graph'] = {
         'functions': len(cg.funcs), 'call_sites_resolved': cg.resolved,
         'call_sites_unresolved': cg.unresolved,
@@ -992,3 +993,99 @@ def r69(ctx) -> None:
                             f'instead of the connection\'s params')
     if not n_use:
         raise AnchorError('no parse() call in ManageSieveConnection')
+
+
+# ----------------------------------------------------------------------
+def r610(ctx) -> None:
+    R = ctx.rule('R6.10', 'stream-collecting loops test the line just read '
+                 '(EOF and {n+} marker)', 4)
+    for rel, cn, meth in (('pymap/imap/__init__.py', 'IMAPConnection',
+                           'readline'),
+                          ('pymap/sieve/manage/__init__.py',
+                           'ManageSieveConnection', '_read_data')):
+        f = ctx.proj.cls(rel, cn).own_method(meth)
+        if f is None:
+            raise AnchorError(f'{cn}.{meth} vanished')
+        cfg = cfg_of(f)
+        reads = []
+        for n in cfg.stmt_nodes():
+            for c in n.calls():
+                if call_name(c) == 'readline' and \
+                        txt(c.func.value).endswith('reader'):
+                    reads.append((n, c))
+        if not reads:
+            raise AnchorError(f'{cn}.{meth}: no reader.readline()')
+        fresh_names = set()
+        for n, c in reads:
+            # the read is bound to a fresh name: `line = await r.readline()`
+            st = n.stmt
+            val = st.value if isinstance(st, ast.Assign) else None
+            while isinstance(val, ast.Call) and call_name(val) in (
+                    'bytearray', 'bytes', 'memoryview') and val.args:
+                val = val.args[0]
+            fresh = isinstance(st, ast.Assign) and len(st.targets) == 1 \
+                and isinstance(st.targets[0], ast.Name) \
+                and strip_await(val) is c
+            name = st.targets[0].id if fresh else None
+            ok = False
+            why = ('the result of reader.readline() is merged into the '
+                   'accumulated buffer before it is tested')
+            if fresh:
+                fresh_names.add(name)
+                # an EOF test on that name, raising/returning, dominates
+                # every continuation of the loop from this read
+                tests = [t for t in cfg.nodes if t.kind == 'test' and any(
+                    isinstance(x, ast.Call) and call_name(x) == 'endswith'
+                    and is_name(x.func.value, name)
+                    for x in ast.walk(t.stmt.test))
+                    or (t.kind == 'test' and guard_atoms(t.stmt.test)
+                        == [(name, False)])]
+                exits = []
+
+                def still_fresh(t):
+                    # no other write of the name between the read and t
+                    for m in cfg.between([n], [t]):
+                        if m is n or m.kind != 'stmt':
+                            continue
+                        if any(isinstance(x, ast.Name) and x.id == name
+                               for x in targets_of(m.stmt)):
+                            return False
+                    return True
+                for t in tests:
+                    if not still_fresh(t):
+                        continue
+                    pol = guard_atoms(t.stmt.test)
+                    eof_lab = 't' if pol and not pol[0][1] else 'f'
+                    for m, lab in t.succ:
+                        if lab == eof_lab and isinstance(
+                                m.stmt, (ast.Raise, ast.Return, ast.Break)):
+                            exits.append(t)
+                # from the read, the next read (or the same one again) is
+                # not reachable without passing such a test
+                nxt = cfg.reach([n], avoid=exits, labels=NORMAL)
+                again = [m for m, _ in reads if m in nxt]
+                ok = bool(exits) and not again
+                why = ('no EOF test (`not line.endswith(b"\\n")` -> raise) '
+                       'on the line just read lies between this read and '
+                       'the next one')
+            R.check(ok, f, c, f'{cn}.{meth}: EOF is tested on the line just '
+                    f'read (read #{reads.index((n, c)) + 1})',
+                    f'{why}: at EOF readline() returns b"" WITHOUT '
+                    f'suspending, the accumulated buffer still ends in '
+                    f'"{{0+}}\\r\\n", and the loop neither ends nor yields — '
+                    f'`a {{0+}}` + disconnect hangs the whole server '
+                    f'process')
+        # the {n+} marker is searched in the fresh line, not in the buffer
+        for c in calls_in(f.node):
+            if call_name(c) in ('search', 'match', 'fullmatch') and \
+                    '_literal_plus' in txt(c.func.value):
+                arg = c.args[0] if c.args else None
+                R.check(isinstance(arg, ast.Name) and arg.id in fresh_names,
+                        f, c, f'{cn}.{meth}: the {{n+}} marker is looked '
+                        f'for in the line just read',
+                        f'the marker is searched in `{txt(arg)}`, which '
+                        f'includes literal data already read: a literal '
+                        f'whose content ends in "{{9+}}" before the CRLF is '
+                        f'taken for another marker and swallows the next 9 '
+                        f'bytes of the stream (framing depends on literal '
+                        f'content)')
